@@ -861,6 +861,20 @@ def r10l_skip_predicate_exact(ctx):
         else:
             r.ok(sample={"consults_ignore_table": root.split("::")[-1]})
     r.floor("consultations of the ignore predicate", m, 2)
+    # the table is the WORKSPACE walk's: it lists names (`build`, `env`, `vendor`, `dist`, `target`, ...) that are ordinary
+    # sub-package names inside an installed plugin.  The workspace walk is the one that is handed the exclude patterns
+    for root in sorted(fams):
+        f0 = crate.fns.get(root)
+        if f0 is None:
+            continue
+        tys = [f0.local_ty(i) for i in range(1, f0.argc + 1)]
+        key = "R10l|%s|ignore table consulted outside the workspace walk" % root
+        if any("Pattern" in t for t in tys):
+            r.ok(sample={"workspace_walk": root.split("::")[-1]})
+        else:
+            r.violate(key, "%s consults the workspace's directory-ignore table but is not the workspace walk (it is not handed "
+                           "the exclude patterns): inside a plugin package `build`, `env`, `vendor` are ordinary sub-packages, "
+                           "their fixtures are never indexed" % root)
     return r
 
 
@@ -963,4 +977,54 @@ def r10n_excludes_from_loaded_config(ctx):
                         r.violate(key, "%s reads the shared configuration for the walk's argument %d without a dominating "
                                        "load-and-store of the configuration in the same function" % (R.id, i))
     r.counts["walk_arguments_read_from_shared_configuration"] = n  # no floor: patterns handed over as a local have no such read
+    return r
+
+
+# ----------------------------------------------------------------------- R10o: the root is known before anything is analysed
+def r10o_root_known_before_analysis(ctx):
+    r = Result("R10o", "the database's root cell (by type: the one Mutex<Option<PathBuf>> field) is consulted by the analysis (the "
+                       "third-party classification strips it from the path before looking for `site-packages` and compares "
+                       "editable-install roots with it); a function that both stores it and starts analyses (directly or in a "
+                       "closure it hands to a parallel iterator) takes the cell before the first of them, on every path. Stored "
+                       "later, the files analysed before that are classified against no root -- a workspace that lies below a "
+                       "directory called site-packages is indexed as third-party")
+    db = _db(ctx)
+    crate = ctx.bin
+    entry = db.analysis_entry()
+    cells = sorted(n for n, ty in db.mutexes.items() if re.search(r"Mutex<std::option::Option<std::path::PathBuf>>", ty))
+    if entry is None or len(cells) != 1:
+        r.anchor_missing("root cell", "analysis entry %s, Mutex<Option<PathBuf>> fields %s" % (entry.id if entry else None, cells))
+        return r
+    cell = cells[0]
+    ops = [op for op in db.lm.ops if op.family == "std" and op.ident.endswith(".%s" % cell) and op.ident.split("|")[1].startswith(DB + ".")]
+    reach_entry = db.cg.reach([entry.id])
+    readers = sorted({op.fn.root for op in ops if op.fn.root in reach_entry or op.fn.id in reach_entry})
+    r.counts["consulted_during_analysis_by"] = ", ".join(x.split("::")[-1] for x in readers)
+    n = 0
+    by_fn = defaultdict(list)
+    for op in ops:
+        by_fn[op.fn.id].append(op)
+    for fid, fops in sorted(by_fn.items()):
+        f = crate.fns[fid]
+        starts = []
+        for bb, c in f.calls():
+            if c.get("res_local") and c.get("res") != entry.id and entry.id in db.cg.reach([c["res"]]):
+                starts.append((bb, c))
+            elif c.get("res") == entry.id:
+                starts.append((bb, c))
+            elif any(entry.id in db.cg.reach([cid]) for cid, _l in c.get("clos", [])):
+                starts.append((bb, c))
+        if not starts:
+            continue
+        n += 1
+        dom = f.dominators()
+        late = [(bb, c) for bb, c in starts if not any(op.bb in dom.get(bb, set()) for op in fops)]
+        key = "R10o|%s|analysis started before the root is stored" % fid
+        if late and readers:
+            r.violate(key, "%s starts analyses at %s before it takes the root cell `%s` (%s): what is analysed there is "
+                           "classified against no root" % (fid, crate.span_str(late[0][1]["span"]), cell,
+                                                           crate.span_str(fops[0].call["span"])))
+        else:
+            r.ok(sample={"stores the root and analyses": fid.split("::")[-1], "analysis starts": len(starts)})
+    r.floor("functions that store the root and start analyses", n, 1)
     return r
